@@ -113,8 +113,13 @@ CLAIMED = {
         'parsing (from_bytes and a reused DiffXDOMReader), generate_stats, '
         '==/!=, repr over up to 4 live trees; after every step every tree '
         'not operated on must be unchanged, observers must not change '
-        'their operands, repeated serialisation must be identical and no '
-        'dict/list may be reachable from two sections.',
+        'their operands, an assignment must change only the section its '
+        'attribute belongs to, repeated serialisation must be identical '
+        'and no dict/list may be reachable from two sections. A second '
+        'check replays about 90 scripted histories (encoding-less parsed '
+        'tree edited at every level, identical sibling metadata edited in '
+        'place, emptied root options, trees extended after serialising) '
+        'through the same model.',
         'Trusted: dxv/trees.py snapshot. Arguments are deep-copied by the '
         'harness so any aliasing is the library\'s.',
         'DESIGN.md section 5 C18'),
@@ -238,7 +243,12 @@ CLAIMED = {
         'with each container omitting or declaring one of two codecs, all '
         'content inheriting, is written (bytes == reference) and read back '
         'from both the writer\'s and the reference bytes; four pairwise '
-        'incompatible codecs make a wrong scope visible. Random deeper '
+        'incompatible codecs make a wrong scope visible; the same '
+        'histories with unknown container codecs overridden everywhere, '
+        'without a main encoding, and with a numeric own encoding that '
+        'must be refused. Hand-framed files whose text is valid only in '
+        'an outer encoding must be refused in place; the writer must '
+        'refuse text the encoding in effect cannot represent. Random deeper '
         'histories with per-section overrides beyond the bound.',
         'Trusted: dxv/spec.py Walker (scope model). Incompatibility of the '
         'four codecs is verified at start-up.',
